@@ -1,6 +1,7 @@
 #!/usr/bin/env python3
 """Apply each kept seeded change (seeded/<name>/patch.diff) to /repo, run the quick
-check of the property it breaks, undo it, and report caught / missed.
+check of the property it breaks, undo it, and report caught / missed.  Changes whose meta.json says
+"harmless": true are behaviour-preserving edits: for those the check must stay silent.
 usage: tools/run_seeded.py [name ...]     (never commits anything to /repo)"""
 import json
 import os
@@ -44,7 +45,7 @@ def main():
             r = sh([os.path.join(VERIF, "bin", "check"), pid, "--tier", "quick"], cwd=VERIF, timeout=3600)
             out = r.stdout.decode("utf-8", "replace")
             viol = [l for l in out.split("\n") if l.startswith("VIOLATION")]
-            results[n] = {"property": pid, "exit": r.returncode, "caught": r.returncode == 1 and bool(viol),
+            results[n] = {"property": pid, "harmless": bool(meta.get("harmless")), "exit": r.returncode, "caught": r.returncode == 1 and bool(viol),
                           "with_input": any("no-failing-input-found" not in l for l in viol), "wall_s": round(time.time() - t0),
                           "lines": viol[:3], "detail": [l for l in out.split("\n") if l.startswith("  violation") or l.startswith("  broken")][:3]}
         finally:
@@ -60,8 +61,14 @@ def main():
     allr = json.load(open(allp)) if os.path.exists(allp) else {}
     allr.update(results)
     json.dump(allr, open(allp, "w"), indent=1, sort_keys=True)
-    missed = [n for n, r in results.items() if not (isinstance(r, dict) and r["caught"])]
-    print("caught %d / %d; missed: %s" % (len(results) - len(missed), len(results), missed))
+    brk = {n: r for n, r in results.items() if not (isinstance(r, dict) and r.get("harmless"))}
+    missed = [n for n, r in brk.items() if not (isinstance(r, dict) and r["caught"])]
+    print("caught %d / %d; missed: %s" % (len(brk) - len(missed), len(brk), missed))
+    harm = {n: r for n, r in results.items() if isinstance(r, dict) and r.get("harmless")}
+    if harm:      # behaviour-preserving changes: the check must stay silent
+        print("harmless %d: alarms with input %s; tie-only alarms %s" % (
+            len(harm), [n for n, r in harm.items() if r["exit"] != 0 and r["with_input"]],
+            [n for n, r in harm.items() if r["exit"] != 0 and not r["with_input"]]))
     return 0
 
 
